@@ -99,8 +99,9 @@ def run(tier):
 
             def a_jobs():
                 yield {"cmd": "custom", "method": "foreign_strength", "args": {}, "id": "foreign_strength", "timeout": 900, "must": True}
-                for stt in ("valid", "missing", "stale_benign"):
-                    yield {"cmd": "custom", "method": "subclass_cell", "args": {"state": stt}, "id": "subclass:" + stt, "timeout": 900, "must": True}
+                for stt, order in (("valid", "base_first"), ("missing", "base_first"), ("stale_benign", "base_first"), ("valid", "mutate_after_first")):
+                    yield {"cmd": "custom", "method": "subclass_cell", "args": {"state": stt, "order": order},
+                           "id": "subclass:%s:%s" % (stt, order), "timeout": 900, "must": True}
                 for part in range(nparts):
                     yield {"cmd": "custom", "method": "sweep", "args": {"part": part, "nparts": nparts},
                            "id": "sweep%d" % part, "timeout": 900, "must": True}
@@ -182,7 +183,7 @@ def run(tier):
             "foreign_table": foreign,
             "faults_fired": {k: v for k, v in sorted(agg.stats.items()) if k.startswith(("state_", "write_fault", "interp_", "crash_"))},
             "probes": {k: agg.stats[k] for k in ("incarnations", "items_parsed", "outcomes_compared", "cache_rewritten",
-                                                 "started_with_invalid_cache", "cache_repaired", "subclass_probes", "subclass_items_differing_from_base",
+                                                 "started_with_invalid_cache", "cache_repaired", "subclass_probes", "subclass_items_differing_from_base", "tables_in_use_checked",
                                                  "subclass_unavailable")},
             "transitions_seen": len(cells),
             "runs_per_hour": int(agg.evals / max(wall_s, 1e-6) * 3600),
